@@ -183,6 +183,11 @@ func checkC10(res *core.RunResult, s *uciSim, pc posCmd, kind string, w Wiring, 
 		res.Violate("C10", "position-differs", s.steps, "after %q (%s of the previous command) the engine is at %q, the command describes %q", pc.text, kind, got, pc.game.FEN())
 		return false
 	}
+	// the clocks the command describes (start clocks counted on by the model game)
+	if want := fmt.Sprintf("%d %d", pc.game.Half(), pc.game.Full()); gf[4]+" "+gf[5] != want {
+		res.Violate("C10", "clocks-differ", s.steps, "after %q (%s) the engine reports the clocks %s %s; the game the command describes has %s (half-move clock, full-move number)", pc.text, kind, gf[4], gf[5], want)
+		return false
+	}
 	// from scratch on a fresh engine
 	ref := engine.New(ctx, "ref", "verif", search.AlphaBeta{Eval: search.Leaf{Eval: eval.Material{}}}, engine.WithZobrist(ztSeed))
 	if err := ref.Reset(ctx, pc.game.Start.FEN(pc.game.StartHalf, pc.game.StartFull)); err != nil {
